@@ -77,10 +77,8 @@ func runC01(c *Ctx) {
 		// only-if direction: a rejecting return follows a failed test
 		c.MustPass(p, wu, "C01.with_user.reject_only_on_failed_test", "return false", retBool(0, false),
 			F(aIPIn), F(aPerm), F(aCustom), F(aUserOK), F(aPassOK))
-		// every return is a boolean constant (no third outcome)
-		for _, d := range retDescs(wu, 0) {
-			c.Check("C01.with_user.returns_const", fnName(wu)+": return "+d, d == "true" || d == "false", p.Pos(wu.Pos()), "")
-		}
+		// (returns whose result is computed - `return u.Pass.Check(..)` - are walked once per
+		// outcome under the corresponding literal by the engine: no constant-only restriction)
 	}
 
 	// --- matchesPermission
@@ -100,9 +98,6 @@ func runC01(c *Ctx) {
 		c.MustPass(p, mp, "C01.perm.regex", "return true via MatchString", func(i ssa.Instruction) bool {
 			return adm(i) && blockHasPredLit(i.Block(), aReMatch)
 		}, T(aReOK))
-		for _, d := range retDescs(mp, 0) {
-			c.Check("C01.perm.returns_const", fnName(mp)+": return "+d, d == "true" || d == "false", p.Pos(mp.Pos()), "")
-		}
 	}
 
 	// --- Credential.Check: the four modes
@@ -123,9 +118,9 @@ func runC01(c *Ctx) {
 		for d, mode := range accepted {
 			c.Check("C01.credential.mode_present", fnName(ck)+": mode "+mode, seen[d], p.Pos(ck.Pos()), "expected return expression: "+d)
 		}
-		c.MustPass(p, ck, "C01.credential.empty_accepts_any", "return true", retBool(0, true), T(`($0 == "")`))
-		c.MustPass(p, ck, "C01.credential.empty_accepts_any", "return true", retBool(0, true), F("(conf.Credential).IsSha256($0)"))
-		c.MustPass(p, ck, "C01.credential.empty_accepts_any", "return true", retBool(0, true), F("(conf.Credential).IsArgon2($0)"))
+		c.MustPass(p, ck, "C01.credential.empty_accepts_any", "return true", retConstBool(0, true), T(`($0 == "")`))
+		c.MustPass(p, ck, "C01.credential.empty_accepts_any", "return true", retConstBool(0, true), F("(conf.Credential).IsSha256($0)"))
+		c.MustPass(p, ck, "C01.credential.empty_accepts_any", "return true", retConstBool(0, true), F("(conf.Credential).IsArgon2($0)"))
 		retWith := func(sub string) target {
 			return func(i ssa.Instruction) bool {
 				r, ok := i.(*ssa.Return)
